@@ -161,6 +161,6 @@ CHECKS["C03"] = {
     "subs": [
         _sub("TestC03_Sched", 12000, 400000, sq=12, st=12),
         # every interleaving of small two-client scenarios (about 100 interleavings per scenario)
-        _sub("TestC03_Exhaustive", 60, 4000, sq=4, st=4),
+        _sub("TestC03_Exhaustive", 40, 4000, sq=4, st=4),
     ],
 }
